@@ -73,13 +73,19 @@ func genDomain(t *rapid.T, label string) string {
 
 func genMailbox(t *rapid.T, label string) string {
 	s := ""
-	if uni(t, label+"q")%3 == 0 { // quoted local part, possibly unterminated, with quoted-pairs
+	if uni(t, label+"q")%2 == 0 { // quoted local part: closed, unterminated, ending in a dangling escape, or followed by junk
 		s = "\""
 		for i, n := 0, uni(t, label+"q#")%6; i < n; i++ {
 			s += qPool[uni(t, label+"qe")%len(qPool)]
 		}
-		if uni(t, label+"qclose")%3 != 0 {
+		switch uni(t, label+"qend") % 4 {
+		case 0:
 			s += "\""
+		case 1:
+		case 2:
+			return s + "\\"
+		default:
+			s += "\"" + atomPool[uni(t, label+"qjunk")%len(atomPool)]
 		}
 	} else {
 		for i, n := 0, 1+uni(t, label+"a#")%3; i < n; i++ {
@@ -150,11 +156,11 @@ func genHostile(t *rapid.T, label string, kind byte) []byte {
 func genPayload(t *rapid.T) PayloadCase {
 	c := PayloadCase{Critical: rapid.Bool().Draw(t, "critical"), NoSubject: uni(t, "nosubject")%4 == 0}
 	// one to three of the eleven slots are filled per case: a hostile string in one extension must not
-	// always be masked by a fatal error in an earlier one
+	// always be masked by a fatal error in an earlier one (the constraint mailboxes, the one grammar the parser walks byte by byte, are listed twice)
 	slots := []struct {
 		dst  *[][]byte
 		kind byte
-	}{{&c.PermEmail, 'e'}, {&c.ExclEmail, 'e'}, {&c.SANEmail, 'e'}, {&c.SANDNS, 'd'}, {&c.SANURI, 'u'}, {&c.PermDNS, 'd'}, {&c.ExclDNS, 'd'},
+	}{{&c.PermEmail, 'e'}, {&c.ExclEmail, 'e'}, {&c.PermEmail, 'e'}, {&c.ExclEmail, 'e'}, {&c.SANEmail, 'e'}, {&c.SANDNS, 'd'}, {&c.SANURI, 'u'}, {&c.PermDNS, 'd'}, {&c.ExclDNS, 'd'},
 		{&c.PermURI, 'd'}, {&c.ExclURI, 'u'}, {&c.AIA, 'u'}, {&c.CRLDP, 'u'}}
 	for i, n := 0, 1+uni(t, "slots")%3; i < n; i++ {
 		sl := slots[uni(t, "slot")%len(slots)]
